@@ -39,7 +39,7 @@ func init() {
 	register(&Prop{
 		ID:    "C09",
 		Level: "fault_enumeration",
-		Rule:  "for every sampled generation (character recipes with and without retries and rejected raw words, wordlist recipes of every scheme with constant / preset / constructed separators incl. the separator call made by Entropy()) the fault-free run gives R reads; then for EVERY read position k in 1..R and every short delivery j in {0,1,2,3} bytes the k-th read fails once, and separately fails from k on; plus re-chunked deliveries (1-3 bytes per read), determinism of (recipe, tape) -> choices within the process, after unrelated calls, from another goroutine and in 2 fresh child processes, support check over complete decision trees, and opgen under strace (getrandom counted; k-th kernel entropy read failed by injection). evaluations = generations executed under a tape or strace; distinct_nontrivial = distinct (generation, read position, bytes delivered, sticky) fault points at which the fault was actually hit",
+		Rule:  "for every sampled generation (character recipes with and without retries and rejected raw words, wordlist recipes of every scheme with constant / preset / constructed separators incl. the separator call made by Entropy()) the fault-free run gives R reads; then for EVERY read position k in 1..R and every short delivery j in {0,1,2,3} bytes the k-th read fails once, and separately fails from k on; plus re-chunked deliveries (1-3 bytes per read), determinism of (recipe, tape) -> choices within the process, after unrelated calls, from another goroutine and in 2 fresh child processes, support check over complete decision trees, and opgen under strace (bytes delivered by getrandom against the entropy floor of what was printed; every kernel entropy read answered by an untouched buffer: the password must be one choice repeated; k-th kernel entropy read failed by injection). evaluations = generations executed under a tape or strace; distinct_nontrivial = distinct (generation, read position, bytes delivered, sticky) fault points at which the fault was actually hit",
 		Assumptions: []string{
 			"Go 1.23: crypto/rand.Read = io.ReadFull(rand.Reader); rand.Reader is replaceable (GOTOOLCHAIN=local pins the toolchain)",
 			"a read that delivers all requested bytes together with an error counts as success for io.ReadFull and is not injected",
